@@ -1433,13 +1433,10 @@ func call(n *node) {
 		nf := newFrame(f, len(def.types), f.runid())
 		var vararg reflect.Value
 
-		// Init return values
-		for i, v := range rvalues {
-			if v != nil {
-				nf.data[i] = v(f)
-			} else {
-				nf.data[i] = reflect.New(def.types[i]).Elem()
-			}
+		// Init return values: the results of the called function are new variables,
+		// copied to their destination when the function returns.
+		for i := range rvalues {
+			nf.data[i] = reflect.New(def.types[i]).Elem()
 		}
 
 		// Init local frame values
